@@ -13,10 +13,10 @@ import (
 func main() {
 	run := ev.Parse("C10", "model_checking")
 	type cfg struct{ keys, vals, iters int }
-	cfgs := []cfg{{3, 2, 2}, {2, 2, 3}}
+	cfgs := []cfg{{3, 1, 2}, {2, 2, 2}, {2, 1, 3}}
 	deadline := time.Now().Add(3 * time.Minute)
 	if run.Thorough() {
-		cfgs = []cfg{{3, 2, 3}, {4, 1, 2}}
+		cfgs = []cfg{{3, 2, 2}, {2, 2, 3}, {4, 1, 2}}
 		deadline = time.Now().Add(12 * time.Minute)
 	}
 	if run.Replay != "" {
